@@ -162,6 +162,7 @@ def process(unit_name, out_dir, mode='verify'):
     pending_subs = []
     global_subs = []
     counts = {}
+    unit_rules = None
     pending_meta = None
     section = 'common'
     i = 0
@@ -238,6 +239,9 @@ def process(unit_name, out_dir, mode='verify'):
                 rp = rp.replace('{%s}' % ck, str(cv))
             pending_subs.append((toks[1], rp))
             continue
+        if cmd == 'defaultrules':
+            unit_rules = [r for r in toks[1].split(',') if r]
+            continue
         if cmd == 'count':
             # //@ count NAME PATH REGEX : number of matches of REGEX in the (comment-masked) source; usable as {NAME} in sub / gsub replacements
             csrc = get_source(toks[2])
@@ -294,7 +298,7 @@ def process(unit_name, out_dir, mode='verify'):
         kind = toks[2]
         pos, kv = parse_kv(toks[3:])
         src = get_source(rel)
-        rules = kv['rules'].split(',') if 'rules' in kv else list(DEFAULT_RULES[u.engine])
+        rules = kv['rules'].split(',') if 'rules' in kv else list(unit_rules if unit_rules is not None else DEFAULT_RULES[u.engine])
         rules = [r for r in rules if r]
         before = dict(u.rules.counts)
         if kind == 'fn':
